@@ -30,6 +30,10 @@ def harnesses(ctx, tier):
                 flags=["--max-field-sensitivity-array-size", "256"], unwind_funcs={"yr_arena_ptr_to_ref": 3, "main": 122},
                 desc="VM timeout poll with symbolic clock and timeout on a 120-NOP program", bounds="all 64-bit clock / timeout values",
                 functions=["yr_execute_code (timeout poll)"], stubs=["yr_stopwatch_elapsed_ns -> symbolic"]),
+        Harness(name="H2_vm_timeout_with_calls", src="c15/vm_limits.c", defines=["-DVF_MODE=3", "-DVF_CODE_MAX=250"], unwind=130, timeout=900,
+                flags=["--max-field-sensitivity-array-size", "256"], unwind_funcs={"yr_arena_ptr_to_ref": 3, "main": 90, "strcmp": 3, "strlen": 3, "_yr_arena_allocate_memory": 3, "yr_arena_release": 3},
+                desc="VM timeout poll with module function calls in the program (88 NOPs, then any subset of 4 calls made around the 100th instruction)", bounds="4 call slots, all clock / timeout values",
+                functions=["yr_execute_code (OP_OBJ_LOAD, OP_CALL, timeout poll, epilogue)"], stubs=["yr_stopwatch_elapsed_ns -> symbolic", "yr_hash_table_lookup -> the function object", "yr_object_copy / yr_object_destroy -> counters"]),
         Harness(name="H3_max_matches_per_string", src="c15/matches.c", defines=["-DVF_N=%d" % N] + SCALE, gen=gen, unwind=N + 2, timeout=900, mem_gb=24,
                 unwind_funcs={"vf_init_tables": 257},
                 desc="matches-per-string limit (scaled to 3): warning callback, muting, isolation of the other string, error on abort",
